@@ -308,6 +308,7 @@ func (r *run) request(t *rapid.T, kind string, small bool) {
 	var prevFromWallet map[wire.OutPoint]bool
 	signed := true
 	published := false
+	dryRun := false // the request's database transaction is rolled back
 	// The wallet treats the imported-address account as one without private
 	// keys (IsWatchOnlyAccount: "TODO: actually check whether it does"), so what
 	// it creates from that account is a watch-only result: unsigned. Such a
@@ -325,6 +326,7 @@ func (r *run) request(t *rapid.T, kind string, small bool) {
 	switch kind {
 	case "create", "create-with-utxos":
 		dry := rapid.Bool().Draw(t, "dryRun")
+		dryRun = dry
 		var opts []wallet.TxCreateOption
 		if len(explicit) > 0 {
 			opts = append(opts, wallet.WithCustomSelectUtxos(explicit))
@@ -462,8 +464,14 @@ func (r *run) request(t *rapid.T, kind string, small bool) {
 		}
 		s.C.Class("signed-result-verified")
 	}
-	// register change addresses the wallet created
+	// register change addresses the wallet created - not those of a dry run:
+	// its transaction is rolled back, the address was never issued (the
+	// running manager still finds it in its cache, the database does not have
+	// it), and nobody could pay it
 	for _, to := range tx.TxOut {
+		if dryRun {
+			break
+		}
 		if _, ok := s.Book.ByScript[string(to.PkScript)]; ok {
 			continue
 		}
